@@ -426,12 +426,36 @@ def impl_repro(case):
         out["eval_sha"] = "exc:" + type(ex).__name__
     # aggregation
     names = sorted({r for r in res1.routine.resources})
-    d = {names[0]: {"zz_base": 2}} if names else {"none": {"zz_base": 1}}
+    # a NESTED dictionary (an entry mentions another key) with text, integer and float multipliers
+    top = names[0] if names else "none"
+    d = {top: {"zz_mid": 2, "zz_base": "3*zz_eps"}, "zz_mid": {"zz_base": "50*zz_eps", "zz_other": 1, "zz_f": 0.5}}
     d_before = copy.deepcopy(d)
+    d_repr = repr(d)
     g1 = add_aggregated_resources(res1.routine, d)
-    g2 = add_aggregated_resources(res1.routine, d)
-    out["aggregate_pure"] = pickle.dumps(res1.routine) == snap and d == d_before
-    out["aggregate_repeatable"] = g1 == g2
+    g2 = add_aggregated_resources(res1.routine, d, remove_decomposed=False)
+    g3 = add_aggregated_resources(res1.routine, d)
+    out["aggregate_pure"] = pickle.dumps(res1.routine) == snap and d == d_before and repr(d) == d_repr
+    out["aggregate_repeatable"] = g1 == g3 and g2 is not None
+    # the same dictionary used as a post-processing stage of compile_routine
+    try:
+        from bartiq.compilation.postprocessing import aggregate_resources
+        d2 = copy.deepcopy(d_before)
+        c1 = compile_routine(doc, postprocessing_stages=[aggregate_resources(d2)])
+        c2 = compile_routine(doc, postprocessing_stages=[aggregate_resources(d2)])
+        out["aggregate_pure"] = out["aggregate_pure"] and d2 == d_before and repr(d2) == d_repr and doc.model_dump_json() == before
+        out["aggregate_repeatable"] = out["aggregate_repeatable"] and c1.routine == c2.routine
+    except ImportError:
+        pass
+    # user functions: the map handed to evaluate is not modified, and evaluating twice gives the same result
+    fmap = {"f": FUN_LIBRARY["inc"], "g": FUN_LIBRARY["lin2"]}
+    f_before = dict(fmap)
+    try:
+        h1 = evaluate(res1.routine, assign, functions_map=fmap)
+        h2 = evaluate(res1.routine, assign, functions_map=fmap)
+        out["evaluate_repeatable"] = out["evaluate_repeatable"] and h1.routine == h2.routine
+    except Exception:
+        pass
+    out["evaluate_pure"] = out["evaluate_pure"] and fmap == f_before and assign == a_before and pickle.dumps(res1.routine) == snap
     return out
 
 
